@@ -34,8 +34,8 @@ loop it replaces.  A refutation at the SMT level is never reported by itself: ev
 obligation whose clause does not recognise a shape, and every locked obligation the changed code no longer
 generates is `unknown` and handed to the native replayer (replay/C10.py); VIOLATION = a failing input reproduced on
 the real code.
-Recorded known findings: F25, F26, F27 (known_findings.json) with
-proposed fixes for F25 (proposed_fixes/C10_F25.diff) and F27 (C10_F27.diff); F10 is fixed in /repo.
+Recorded known finding: F26 (known_findings.json).  F10, F25 and F27 are fixed in /repo: their input classes are checked
+like every other input (replay/C10.py exempts the class of a finding only while known_findings.json lists it as open).
 """
 import ast
 
@@ -834,7 +834,7 @@ class C10Executor(Executor):
         sel, cnt = z3.Function(fresh_name("filtered_index"), I, I), z3.Int(fresh_name("filtered_count"))
         s2.assume(z3.And(cnt >= 0, cnt <= it.length))
         s2.assume(z3.ForAll([j], z3.Implies(z3.And(j >= 0, j < cnt), z3.And(sel(j) >= 0, sel(j) < it.length, cond_at(sel(j)))), patterns=[sel(j)]))
-        return [(s2, VSeq(cnt, lambda k: it.elem(sel(k)), it.ekind, it.is_bytes, tag=("filtered", it.tag)))]
+        return [(s2, VSeq(cnt, lambda k: it.elem(sel(k)), it.ekind, it.is_bytes, tag=("filtered", it.tag, it, j, c0)))]
 
     def _pure_map_comp(self, n, st):
         """[E(t) for t in IT] over a symbolic IT where E has no effect and cannot raise (checked at a generic index): the
@@ -2405,6 +2405,15 @@ def member_contracts(reg_models=None):
         wl = worklist_of(cur_loop(lc))
         ref = lc.entry.lookup(wl).ref
         direct = not (isinstance(lc.seq.tag, tuple) and lc.seq.tag and lc.seq.tag[0] == "filtered")      # iterating szf.list() itself
+        if not direct and lc.extra.get("phase") == "init":
+            # a pre-filtered view is what the selection runs over: the filter must not drop a member that has to be selected
+            # (the view is the subsequence of szf.list() whose elements satisfy the filter condition, PY-LIST-ORDER)
+            base, jv, c0 = lc.seq.tag[2:5] if len(lc.seq.tag) == 5 else (None, None, None)
+            a = z3.Int("a!view")
+            be = base.elem(a) if isinstance(base, VSeq) else None
+            if not (isinstance(be, VExt) and be.sort == "FileInfo" and z3.simplify(be.t).eq(FINFO(a)) and z3.simplify(base.length).eq(N7)):
+                raise ops.Unsupported("7z selection loop: pre-filtered view of something that is not szf.list() itself")
+            conj.append(z3.ForAll([a], z3.Implies(z3.And(a >= 0, a < N7, keep7(a)), z3.substitute(c0, (jv, a))), patterns=[FINFO(a)]))
         if lc.extra.get("phase") == "preserve":
             ev = lc.seq.elem(i - 1)                      # the entry this iteration looked at (also through a pre-filtered view)
             if not (isinstance(ev, VExt) and ev.sort == "FileInfo"):
